@@ -175,7 +175,28 @@ def unfaithful_nlri(x, n):
 
 # ---- kind 8: API NLRI of flowspec / SR policy / RTC / MUP
 def xnlri_modelled(c):
-    return False
+    return c['x'][0] in (10, 11, 12, 13)
+
+def fs_rule_to_coq(r):
+    if r[0] == 0: return 'FRMissing'
+    if r[0] == 1: return '(FRPrefix %s %s %s %s)' % (cN(r[1]), cN(r[2]), cstr(r[3]), cN(r[4]))
+    if r[0] == 2: return '(FRComp %s %s)' % (cN(r[1]), rlist(r[2], lambda o: '(%s, %s)' % (cN(o[0]), cN(o[1]))))
+    return 'FRMac'
+
+def api_rt_to_coq(rt):
+    if not rt: return 'None'
+    if rt[0] == 0: return '(Some RtMissing)'
+    if rt[0] == 1: return '(Some (Rt2 %s %s %s %s))' % (cbool(rt[1]), cN(rt[2]), cN(rt[3]), cN(rt[4]))
+    if rt[0] == 2: return '(Some (RtIp %s %s %s %s))' % (cbool(rt[1]), cN(rt[2]), cstr(rt[3]), cN(rt[4]))
+    return '(Some (Rt4 %s %s %s %s))' % (cbool(rt[1]), cN(rt[2]), cN(rt[3]), cN(rt[4]))
+
+def xnlri_to_coq(c):
+    x, fam = c['x'], c['fam']
+    if x[0] == 10: return 'run_api_fs_case %s (AFs %s)' % (cN(fam), rlist(x[1], fs_rule_to_coq))
+    if x[0] == 11: return 'run_api_fs_case %s (AFsVpn %s %s)' % (cN(fam), api_rd_to_coq(x[1]), rlist(x[2], fs_rule_to_coq))
+    if x[0] == 12: return 'run_api_srp_case %s (ASrP %s %s %s %s)' % (cN(fam), cN(x[1]), cN(x[2]), cN(x[3]), cbytes(x[4]))
+    if x[0] == 13: return 'run_api_rtc_case %s (ARtc %s %s)' % (cN(fam), cN(x[1]), api_rt_to_coq(x[2]))
+    raise ValueError(x)
 
 def xnlri_known_class(c, obs):
     """RTC values of the open class C17-rtc (as printed in the wire bytes of the accepted NLRI)"""
@@ -732,7 +753,7 @@ def gen_api_case(rng, variant=None):
 class Prop:
     pid = 'C17'
     props_file = 'Props/C17.v'
-    required_theorems = ['attr_roundtrip_up_to_flags', 'attr_roundtrip_core_outside_known', 'attr_roundtrip_core_refuted', 'from_api_total', 'from_api_preserves_wf', 'wire_values_are_wf', 'wf_is_safe_downstream', 'api_accepted_is_safe', 'nlri_roundtrip_core', 'net_from_api_preserves_wf', 'nlri_encode_safe', 'local_path_accepts_wf', 'evpn_roundtrip', 'evpn_from_api_preserves_wf', 'noncore_roundtrip_guarded', 'noncore_typed_from_api_wf']
+    required_theorems = ['attr_roundtrip_up_to_flags', 'attr_roundtrip_core_outside_known', 'attr_roundtrip_core_refuted', 'from_api_total', 'from_api_preserves_wf', 'wire_values_are_wf', 'wf_is_safe_downstream', 'api_accepted_is_safe', 'nlri_roundtrip_core', 'net_from_api_preserves_wf', 'nlri_encode_safe', 'local_path_accepts_wf', 'evpn_roundtrip', 'evpn_from_api_preserves_wf', 'noncore_roundtrip_guarded', 'noncore_typed_from_api_wf', 'flowspec_roundtrip', 'flowspec_from_api_preserves_wf', 'srpolicy_roundtrip_and_wf', 'rtc_roundtrip_outside_known', 'rtc_roundtrip_refuted', 'rtc_from_api_preserves_wf']
     correspondence_name = ('Model/Api.v (wire_accept, to_api, from_api, net_from_api, nlri_to_api, local_path, as_path_length, encode_attr, rib_cmp, encode_nlri) vs '
                            'daemon/src/convert.rs attr_to_api / attr_from_api / nlri_to_api / net_from_api, event/grpc.rs GrpcService::local_path, '
                            'packet Attribute::{decode via PeerCodec::parse_message, as_path_length, encode_to_bytes}, Nlri::encode_to_bytes, '
@@ -805,7 +826,7 @@ class Prop:
         if c['k'] == 2: return 'run_api_nlri_case Debug %s' % api_nlri_to_coq(c['api'])
         if c['k'] == 3: return 'run_nlri_case %s' % nlri_to_coq(c['n'])
         if c['k'] == 4: return '(VL [])'     # the wide part has no model: judged by the oracle only
-        if c['k'] == 8 and not xnlri_modelled(c): return '(VL [])'
+        if c['k'] == 8: return xnlri_to_coq(c) if xnlri_modelled(c) else '(VL [])'
         if c['k'] == 6: return 'run_api_evpn_case %s' % api_evpn_to_coq(c['api'])
         if c['k'] == 7: return 'run_evpn_case %s' % evpn_to_coq(c['e'])
         if c['k'] == 5:
@@ -882,6 +903,8 @@ class Prop:
     def canon(self, case, obs):
         if case['k'] == 4 or (case['k'] == 8 and not xnlri_modelled(case)):
             return []       # not modelled (differential testing of the real round trip only)
+        if case['k'] == 8 and len(obs) == 6:
+            return [obs[0], obs[3], obs[4], obs[5]]     # accepted, decodes back, relisted, API form listed
         return obs
 
     # ---- Spec oracle on the implementation's observations
